@@ -141,6 +141,12 @@ impl Prop for C14 {
                 _ => {
                     tx.segwit = true;
                     let ii = rng.usize(0, tx.inputs.len() - 1);
+                    // sometimes a stack of hundreds of items in front of it (the item count is a CompactSize)
+                    if specials.is_empty() && rng.chance(1, 6) {
+                        for _ in 0..*rng.pick(&[252usize, 253, 254, 300, 1000]) {
+                            tx.inputs[ii].witness.push(Bytes(vec![7u8; 1]));
+                        }
+                    }
                     tx.inputs[ii].witness.push(Bytes(bytes));
                 }
             }
